@@ -353,18 +353,22 @@ def classify_gor_failure(c, root, rep):
     r0, rb = f(root['x0']), f(root['beta'])
     rep.update({'fsolve_x0': root['x0'], 'residual_at_x0': r0, 'fsolve_result': root['beta'], 'residual_at_result': rb})
     if not math.isfinite(r0) and root['beta'] == root['x0']:
-        # does a root exist?  residual < 0 for a trace of gas, > 0 just below the dew point
-        lo, hi = 1e-9, root['x0']
-        for _ in range(60):
-            if math.isfinite(f(hi)):
+        # does a root exist?  the two-phase interval lies below the first guess (NaN above it: all gas; NaN near 0: all
+        # liquid, no gas density).  Scan a grid for a sign change between two finite residuals, then bisect.
+        grid = [root['x0'] * (k / 48.) for k in range(1, 48)]
+        vals = [f(b) for b in grid]
+        lo = hi = None
+        for k in range(len(grid) - 1):
+            if math.isfinite(vals[k]) and math.isfinite(vals[k + 1]) and vals[k] < 0. <= vals[k + 1]:
+                lo, hi = grid[k], grid[k + 1]
                 break
-            hi = 0.5 * (lo + hi)
-        flo, fhi = f(lo), f(hi)
-        if math.isfinite(flo) and math.isfinite(fhi) and flo < 0. < fhi:
+        if lo is not None:
             for _ in range(70):
                 mid = 0.5 * (lo + hi)
                 v = f(mid)
-                if not math.isfinite(v) or v > 0.:
+                if not math.isfinite(v):
+                    break
+                if v > 0.:
                     hi = mid
                 else:
                     lo = mid
